@@ -101,9 +101,23 @@ class Check(object):
         if len(tasks) <= 1 or procs == 1:
             outs = [_worker(t) for t in tasks]
         else:
+            import concurrent.futures as cf
             ctx = multiprocessing.get_context('fork')
-            with ctx.Pool(min(procs, len(tasks))) as pool:
-                outs = pool.map(_worker, tasks, chunksize=1)
+            outs = []
+            budget = float(os.environ.get('PYVC_SCRIPT_TIMEOUT', '900'))
+            ex_ = cf.ProcessPoolExecutor(max_workers=min(procs, len(tasks)),
+                                         mp_context=ctx)
+            futs = [(t, ex_.submit(_worker, t)) for t in tasks]
+            for t, f in futs:
+                nm = (self.scripts if t[0] == 'script' else self.canaries)[t[1]][0]
+                try:
+                    outs.append(f.result(timeout=budget))
+                except Exception as e:       # crashed / timed-out worker
+                    outs.append({'results': [], 'paths': 0, 'feas_time': 0.0,
+                                 'notes': [], 'canaries': [], 'files': {},
+                                 'undecided': ['%s: worker failed: %s: %s' % (
+                                     nm, type(e).__name__, str(e)[:200])]})
+            ex_.shutdown(wait=False, cancel_futures=True)
         for o in outs:
             self._absorb(o)
         return self.finish()
